@@ -167,6 +167,7 @@ func C13(c *core.Ctx) {
 		c.Check("R1", "pop-nonblocking", fn.Pos(), sel != nil && !sel.Blocking && len(sel.States) == 1 && sel.States[0].Dir == types.RecvOnly && !blockingRecv,
 			"Pop is a non-blocking receive of the oldest packet")
 	}
+	popVerdict(c, "R1")
 
 	// R2 gating in ServeReport
 	if fn := fnOf(c, "R2", pkgPfcp, "PfcpServer", "ServeReport"); fn != nil {
@@ -773,4 +774,99 @@ func applyActionLookups(c *core.Ctx, rule string) {
 		c.Floor(rule, n, 3, "rule look-ups in applyAction")
 	}
 
+}
+
+// popVerdict: the drain loops of the driver (`for { pkt, ok := Pop(); if !ok { break } ... }`) run on the event loop and
+// end only because Pop answers false for an empty queue.  In Sess.Pop every return reached through the `default` arm
+// of the non-blocking select (nothing received) therefore yields false as its verdict — a constant, or a value known
+// to be false on that arm.
+func popVerdict(c *core.Ctx, rule string) {
+	fn := fnOf(c, rule, pkgPfcp, "Sess", "Pop")
+	if fn == nil {
+		return
+	}
+	var sel *ssa.Select
+	core.Instrs(fn, func(in ssa.Instruction) {
+		if x, ok := in.(*ssa.Select); ok {
+			sel = x
+		}
+	})
+	if sel == nil || sel.Blocking {
+		return // pop-nonblocking reports it
+	}
+	// the arm test: index == 0 (received); the other successor is the default arm
+	var idx ssa.Value
+	for _, r := range *sel.Referrers() {
+		if ex, ok := r.(*ssa.Extract); ok && ex.Index == 0 {
+			idx = ex
+		}
+	}
+	var dflt *ssa.BasicBlock
+	for _, b := range fn.Blocks {
+		ifi, ok := b.Instrs[len(b.Instrs)-1].(*ssa.If)
+		if !ok {
+			continue
+		}
+		bo, ok := ifi.Cond.(*ssa.BinOp)
+		if !ok || bo.Op != token.EQL || bo.X != idx {
+			continue
+		}
+		if k, isK := core.ConstInt(bo.Y); isK && k == 0 {
+			dflt = b.Succs[1]
+		}
+	}
+	if dflt == nil {
+		c.Undecided(rule, "pop-empty-false", fn.Pos(), "cannot find the default arm of the non-blocking receive in Sess.Pop")
+		return
+	}
+	bad := ""
+	var badPos token.Pos
+	type st struct{ b, prev *ssa.BasicBlock }
+	seen := map[st]bool{}
+	stack := []st{{dflt, nil}}
+	for len(stack) > 0 {
+		cur := stack[len(stack)-1]
+		stack = stack[:len(stack)-1]
+		if seen[cur] {
+			continue
+		}
+		seen[cur] = true
+		if r, ok := cur.b.Instrs[len(cur.b.Instrs)-1].(*ssa.Return); ok && len(r.Results) == 2 {
+			v := r.Results[1]
+			for {
+				ph, isPhi := v.(*ssa.Phi)
+				if !isPhi || ph.Block() != cur.b || cur.prev == nil {
+					break
+				}
+				found := false
+				for i, pr := range cur.b.Preds {
+					if pr == cur.prev {
+						v, found = ph.Edges[i], true
+					}
+				}
+				if !found {
+					break
+				}
+			}
+			isFalse := false
+			if k, ok := v.(*ssa.Const); ok && k.Value != nil && k.Value.String() == "false" {
+				isFalse = true
+			}
+			if !isFalse && core.KnownAt(dflt, v, false) {
+				isFalse = true
+			}
+			if !isFalse && bad == "" {
+				bad = "on the empty-queue arm Pop does not answer false"
+				badPos = r.Pos()
+			}
+		}
+		for _, s := range cur.b.Succs {
+			stack = append(stack, st{s, cur.b})
+		}
+	}
+	pos := fn.Pos()
+	if bad != "" {
+		pos = badPos
+	}
+	c.Check(rule, "pop-empty-false", pos, bad == "", "Pop answers false when the queue is empty: the driver's drain loops on the event loop end there"+map[bool]string{true: "", false: " — " + bad}[bad == ""])
 }
